@@ -51,4 +51,34 @@ TEXT = {
   "note": "Node graphs are acyclic and non-nil; a process-fatal crash is attributed to the case persisted just before execution; the watchdog bound (30 s) is an assumption about what counts as a hang on bounded inputs.",
   "ref": "DESIGN.md 4/C01",
  },
+ "C10": {
+  "technique": "stateful property-based testing (rapid): generated call histories over a pool of trees and Options values through all four entry points; invariant after every step = deep pointer+field snapshot of every tree and copy of every Options/URL unchanged",
+  "level": "Exploration: hundreds to thousands of generated histories per run; the snapshot covers every node reachable from the topmost ancestor of each argument, so surroundings of a sub-element are checked too; ApplyForURL runs against a loopback server.",
+  "note": "ApplyForURL only against a loopback httptest server; pages come from the DocModel/PagerModel grammars.", "ref": "DESIGN.md 4/C10",
+ },
+ "C11": {
+  "technique": "stateful property-based testing (rapid): repeated runs and generated call histories over document/option pools; oracle = every result equals the first result of its (document, options) pair; differential between Apply, ApplyForReader and ApplyForFile",
+  "level": "Exploration: hundreds to thousands of pools per run, each pair executed >=8 times plus an interleaved history; map-iteration orders are sampled by repetition.",
+  "note": "A two-way map-order choice escapes one evaluation with probability 2^-7 at worst; there is no control over the runtime's map iteration order.", "ref": "DESIGN.md 4/C11",
+ },
+ "C12": {
+  "technique": "property-based testing (rapid) of generated concurrent workloads under the Go race detector; oracle = no race report and each concurrent result equals its sequential result",
+  "level": "Exploration: tens to thousands of generated workloads per run with heavy sharing of trees, Options and URLs under a -race build; schedules are sampled.",
+  "note": "Happens-before race detection reports a conflicting pair whenever both accesses execute in a run; defects that need a specific interleaving without a data race are out of reach.", "ref": "DESIGN.md 4/C12",
+ },
+ "C13": {
+  "technique": "property-based testing (rapid) of generated pages with an exhaustive loop over the option space per page; oracle = metamorphic equalities between configurations",
+  "level": "Exploration over pages, exhaustive over the 2 x 2 x 2 x 32 configurations (plus nil options) for each page.",
+  "note": "Results are compared only between runs with the same page URL.", "ref": "DESIGN.md 4/C13",
+ },
+ "C16": {
+  "technique": "property-based testing (rapid): generated pagers mixing pattern links with placeholder, off-site, look-alike, userinfo, other-scheme and malformed anchors; oracle = validity predicate on PaginationInfo (http(s), same host, target of a document anchor)",
+  "level": "Exploration: tens of thousands of generated pagers per run over 7 URL families and both algorithms.",
+  "note": "Anchor targets are resolved by the harness with net/url; page URLs are http(s).", "ref": "DESIGN.md 4/C16",
+ },
+ "C17": {
+  "technique": "exhaustive enumeration of conventional pagers (N, k, URL family, markup) with expected next/prev links known by construction",
+  "level": "Exploration, exhaustive over the stated finite product in the thorough tier (quick: a seed-rotated slice with all N,k cells and all families).",
+  "note": "Domain restricted to one-pattern pagers with neutral URL words and plain Prev/Next labels, as the property states.", "ref": "DESIGN.md 4/C17",
+ },
 }
